@@ -32,6 +32,7 @@ ASSUMPTIONS = [
     "when sexes are given (female_samples=True/False) the cohort really has that sex; when inferred, the profile amplitude is <= 0.2 and X holds >= 40 bins",
     "rmask is read with the same unambiguous-base denominator as gc; both are 0 for an all-N bin; a pooled reference leaves rmask empty on target bins (it is only used for antitargets) - not asserted there",
     "semantic tier (corrections on): bins, order and the X/Y levels are asserted, not exact values",
+    "null-coverage bins: up to 5% when sexes are inferred or corrections are on (sex inference on null-heavy samples is outside C15's premise), up to 30% otherwise",
 ]
 
 
@@ -63,7 +64,7 @@ def strategy(draw):
         "sd": draw(st.sampled_from([0.0, 0.0, 0.05, 0.3])),
         "amp": 0.0 if semantic else draw(st.sampled_from([0.0, 0.2, 0.2])) if given is None else draw(st.sampled_from([0.0, 0.2, 1.5])),
         "anti": draw(st.sampled_from(["none", "full", "full", "empty"])),
-        "null_frac": draw(st.sampled_from([0.0, 0.0, 0.05])),
+        "null_frac": draw(st.sampled_from([0.0, 0.0, 0.05, 0.3] if (given is not None and not semantic) else [0.0, 0.0, 0.05])),
         "female_y": draw(st.sampled_from(["null", "low"])),
         "shuffle": draw(st.booleans()), "fasta": semantic and draw(st.booleans()),
         "corrupt": draw(st.sampled_from(["move", "rename", "drop"])) if kind == "negative" else None,
@@ -112,7 +113,7 @@ def sample_values(case, bins, block, si, rng, profile):
                     v += -6.0
             else:
                 v += -1.0
-        elif block == "t" and rng.random() < case["null_frac"]:
+        elif rng.random() < case["null_frac"]:
             null = True
         if case["sd"]:
             v += float(rng.normal(0, case["sd"]))
@@ -385,8 +386,8 @@ def check_case(case):
                         if case["sd"] or case["null_frac"] or on:
                             continue
                         want = prof[j] - c0
-                    if case["null_frac"] and case["sd"] == 0 and bare in ("X", "Y") and case["amp"]:
-                        continue  # null target bins shift each sample's own centre by a profile-dependent amount
+                    if case["null_frac"] and (case["amp"] or case["null_frac"] >= 0.3):
+                        continue  # null bins shift each sample's own centre by a profile- and noise-dependent amount
                     if abs(g[4] - want) > tol + (0.02 if case["sd"] else 0):
                         bad("consequence:level", f"{b[:3]}: reference log2 {g[4]!r}, expected {want!r} +- {tol:.3g} ({'X/Y level' if bare in 'XY' else 'common profile'})")
                         break
